@@ -205,7 +205,8 @@ class Harness:
         run = self.run
         self._saved = {
             "pickle": run.pickle,
-            "uuid": run.uuid,
+            # A tree which names its temporary file without ``uuid`` has no such seam.
+            "uuid": getattr(run, "uuid", None),
             "parse": run.parse,
             "intermediate": run.intermediate,
             "exists": pathlib.Path.exists,
@@ -298,9 +299,10 @@ class Harness:
             return harness._loaded_by_bytes[data]
 
         run.pickle = types.SimpleNamespace(dump=dump, load=load)  # type: ignore
-        run.uuid = types.SimpleNamespace(  # type: ignore
-            uuid4=lambda: f"run{getattr(_TLS, 'tid', 'x')}"
-        )
+        if self._saved["uuid"] is not None:
+            run.uuid = types.SimpleNamespace(  # type: ignore
+                uuid4=lambda: f"run{getattr(_TLS, 'tid', 'x')}"
+            )
         run.parse = self.parse_shim  # type: ignore
         run.intermediate = self.intermediate_shim  # type: ignore
 
@@ -308,7 +310,8 @@ class Harness:
         saved = self._saved
         run = self.run
         run.pickle = saved["pickle"]
-        run.uuid = saved["uuid"]
+        if saved["uuid"] is not None:
+            run.uuid = saved["uuid"]
         run.parse = saved["parse"]
         run.intermediate = saved["intermediate"]
         pathlib.Path.exists = saved["exists"]  # type: ignore
